@@ -83,6 +83,18 @@ CLAIMED["C04"] = dict(
          "stand-in schema_paths (constructor, dict, JSON) and by C01's loaders.",
     technique=TECH + "; symbolic sets as element lists; filter comprehensions with monotone source-index functions",
 )
+CLAIMED["C19"] = dict(
+    level="proof",
+    text="SimpleEncoder (real __init__, encode, decode), create_tag_encoder, classification_encoding, multilabel_encoding and "
+         "prediction_encoding are executed symbolically over unbounded vocabularies and tag lists and proved against the "
+         "statement: encode(t) = i iff t equals the i-th vocabulary tag (None otherwise), encode(decode(i)) = i, first "
+         "in-vocabulary tag, indicator vector, score of the last predicted tag per position (float32) else 0. For each of the "
+         "eight hashable data classes the real __hash__ body is proved congruent with structural equality.",
+    note="Trusted: engine, solvers, Python dict semantics (last equal key wins), builtin hash congruent on str/UUID/float/tuple, "
+         "numpy zeros/item assignment/float32 cast, pydantic structural __eq__. Bounded stand-in encoding_small (exhaustive "
+         "vocabularies <= 3 over 5 tags) checks the same contracts and out-of-vocabulary independence natively.",
+    technique=TECH + "; loop summaries with array-store accumulators; symbolic dicts (last-match lookup)",
+)
 ALL = [f"C{n:02d}" for n in range(1, 21)]
 NOT_APPLICABLE = {p: "check not built yet in this session (work in progress; see DESIGN.md section 12 build order)"
                   for p in ALL if p not in CLAIMED}
